@@ -8,6 +8,7 @@ import (
 	"path"
 	"sort"
 	"strings"
+	"sync"
 	"testing"
 
 	vrt "github.com/gotid/god"
@@ -381,4 +382,68 @@ func TestVerifRoutingMethods(t *testing.T) {
 		}
 	}
 	c.Done()
+}
+
+// Requests served at the same time (the router is shared by all connections of a server):
+// each concurrent request gets exactly the answer it gets on its own - in particular the Allow
+// header of a 405 lists the methods of *its* path.  One earlier 405 has been answered before
+// (whatever the router keeps between requests has been used once).
+func TestVerifRoutingConcurrent(t *testing.T) {
+	defer vrt.WriteReport()
+	if !vrt.Shard(3) {
+		return
+	}
+	bound := 2
+	if vrt.Thorough() {
+		bound = 3
+	}
+	type req struct{ method, path string }
+	for _, sc := range [][]req{
+		{{"PUT", "/a/1"}, {"PUT", "/b/1"}},
+		{{"PUT", "/a/1"}, {"DELETE", "/b/1"}, {"GET", "/a/1"}},
+		{{"PUT", "/a/1"}, {"PUT", "/zz"}},
+	} {
+		sc := sc
+		vrt.Explore(vrt.Options{Name: fmt.Sprintf("routing/concurrent/%v", sc), Bound: bound, Prune: true, Budget: vrt.FairBudget(1)}, func(r *vrt.Run) {
+			rt := NewRouter()
+			served := func(name string) http.Handler {
+				return http.HandlerFunc(func(w http.ResponseWriter, q *http.Request) { w.Header().Set("X-Served", name) })
+			}
+			for _, x := range []req{{"GET", "/a/:x"}, {"HEAD", "/a/:x"}, {"POST", "/b/:x"}, {"PATCH", "/b/:x"}, {"OPTIONS", "/b/:x"}} {
+				if err := rt.Handle(x.method, x.path, served(x.method+" "+x.path)); err != nil {
+					r.Failf("Handle: %v", err)
+					return
+				}
+			}
+			answer := func(q req) string {
+				rec := httptest.NewRecorder()
+				rt.ServeHTTP(rec, httptest.NewRequest(q.method, q.path, nil))
+				allow := strings.Split(rec.Header().Get("Allow"), ", ")
+				sort.Strings(allow)
+				return fmt.Sprintf("%d served=%q allow=%v", rec.Code, rec.Header().Get("X-Served"), allow)
+			}
+			answer(req{"DELETE", "/b/9"}) // an earlier 405
+			alone := make([]string, len(sc))
+			for i, q := range sc {
+				alone[i] = answer(q)
+			}
+			got := make([]string, len(sc))
+			var wg sync.WaitGroup
+			for i, q := range sc {
+				i, q := i, q
+				wg.Add(1)
+				go func() {
+					defer wg.Done()
+					got[i] = answer(q)
+				}()
+			}
+			wg.Wait()
+			r.Outcome("%v", got)
+			for i := range sc {
+				if got[i] != alone[i] {
+					r.Failf("%s %s served concurrently with %v answered [%s]; on its own it answers [%s]", sc[i].method, sc[i].path, sc, got[i], alone[i])
+				}
+			}
+		})
+	}
 }
